@@ -153,6 +153,19 @@ def run(chk):
                         chk.violated("R4", inst, "returns %s, expected %s" % (ev.show(res)[:200], ev.show(want)), short(f["loc"]))
                 except ev.Inconclusive as x:
                     chk.inconclusive("R4", inst, str(x), short(f["loc"]))
+    if chk.tier == "thorough":
+        # trusted-base reduction: the evaluator's terms agree with g++'s constant evaluator on every constexpr relation
+        from .. import validate
+        chk.rule("R0v", "(thorough) translation validation of the evaluator: for every constexpr relation the term evaluated at a rational sample point equals what g++'s constant evaluator computes (static_assert batch, -fsyntax-only)")
+        summ = []
+        for T in NUMERIC:
+            r = validate.run(T)
+            summ.append(r)
+            if r["n_disagreements"] or r["n_other_errors"]:
+                chk.inconclusive("R0v", "evaluator vs g++ <%s>" % T, "the evaluator's denotation disagrees with the compiler for %s %s" % (r["disagreements"][:2], r["other_errors"][:1]), "")
+            else:
+                chk.holds("R0v", "evaluator vs g++ <%s>" % T, "%d static_asserts over the slots of the constexpr relations agree (%d functions not expressible as constant expressions)" % (r["asserts"], r["skipped_functions"]), "")
+        chk.coverage["evaluator_validation"] = [{k: v for k, v in r.items() if k != "disagreements"} for r in summ]
     chk.floor("component-wise operator instances (x3)", n_ops, 2700)
     chk.floor("constructor/operator twins (x3)", n_tw, 500)
     chk.coverage["operators"] = n_ops
